@@ -19,8 +19,8 @@ from .. import units, guards, effects
 
 MANIFEST = {
     "level": "other",
-    "technique": "static analysis: symbolic evaluation and term matching for the anomaly relations, polynomial normal form for the vis-viva / phase / node-passage identities with numeric constant relations checked to a stated tolerance, unit inference",
-    "text": "The closed-form relations of the property (true anomaly, reciprocal factor in the node passage, vis-viva products, k = (1 + cos i)/2, Kepler's equation and radius in the node passage, Barker's constant) are decided symbolically for all inputs. Convergence and the 5e-8 degree residual of the bisection, the half-revolution clause at runtime, and the orbit-length bounds are numerical and not decided.",
+    "technique": "static analysis: symbolic evaluation and term matching for the anomaly relations, polynomial normal form for the vis-viva / phase / node-passage identities with numeric constant relations checked to a stated tolerance, interval bound of both orbit-length closed forms against the AGM value of the elliptic integral, unit inference",
+    "text": "The closed-form relations of the property (true anomaly, reciprocal factor in the node passage, vis-viva products, k = (1 + cos i)/2, Kepler's equation and radius in the node passage, Barker's constant) are decided symbolically for all inputs. Convergence and the 5e-8 degree residual of the bisection, the half-revolution clause at runtime, are numerical and not decided; the orbit length is decided as far as both closed forms staying within [2 pi b, 2 pi a] and within 1e-4 of the elliptic integral up to the switch.",
     "note": "Trusted: term/polynomial engine; Gaussian constant k = 0.01720209895 (0.9856076686 deg/day). Undecided: convergence/residual of the Sinnott bisection, orbit length bounds and continuity at e = 0.95.",
 }
 MOD = "Coordinates"
